@@ -33,7 +33,7 @@ import traceback
 from simkit import findings, forkenum, world
 from simkit.sim import Sim, SimCrash, Violation, derive_seed
 
-from . import storesim
+from . import cosim, storesim
 from . import treesim as T
 
 PROPERTY = "C01"
@@ -286,7 +286,8 @@ def propose_commit(rng, g, m, full=False, bad=False, maybe=False):
             out.add(rng.choice(src))
         return sorted(out)
 
-    for _ in range(10):
+    first_ok = None
+    for _ in range(30 if maybe else 10):
         mode = rng.choice(["sel", "sel", "exc", "exc", "both", "both", "empty"])
         op = dict(base)
         if mode in ("sel", "both"):
@@ -300,11 +301,13 @@ def propose_commit(rng, g, m, full=False, bad=False, maybe=False):
                 continue
             op["paths"] = []
         c = classify_commit(m, op)
-        if c == "ok":
+        if c == "ok" and not maybe:
             return op
+        if c == "ok" and first_ok is None:
+            first_ok = op
         if c == "maybe" and maybe:
             return dict(op, maybe=1)
-    return base
+    return first_ok or base
 
 
 def generate(rng, tier):
@@ -346,7 +349,7 @@ def generate(rng, tier):
             if bad:
                 ops.append(bad)
     edits(rng.randint(2, 9))
-    target = propose_commit(rng, g, m, full=rng.random() < 0.2, maybe=rng.random() < 0.3)
+    target = propose_commit(rng, g, m, full=rng.random() < 0.2, maybe=rng.random() < 0.15)
     if rng.random() < 0.04:
         target = propose_commit(rng, g, m, bad=True) or target
     if target.get("bad") or target.get("maybe"):
@@ -393,19 +396,7 @@ def store_restore(snap):
     return url
 
 
-_EXTRA_VOLATILE = __import__("re").compile(r"(?<=-lock/)[a-z0-9]{10}(?=\.tmp)")
-
-
-def mask_log(sim, root):
-    """treesim.relativise_log + the random names of the control directory's own locks
-    (branch-lock / repository-lock, taken while a checkout is created)."""
-    T.relativise_log(sim, root)
-    inner = sim.event
-
-    def event(*fields, vol=None):
-        inner(*[_EXTRA_VOLATILE.sub("~", str(f)) for f in fields], vol=vol)
-
-    sim.event = event
+mask_log = cosim.mask_log
 
 
 def build_world(sim):
